@@ -148,6 +148,16 @@ theorem bridge_all_seeded : (∀ s ∈ Gen.C12.random_sites, s.2 = true) ∧ Gen
 theorem bridge_order_nodup : Gen.C12.aggregate_order.Nodup ∧
     Gen.C12.aggregate_order = ["postal_code", "district", "county_classification", "county_fips"] := by decide
 
+/-- **what a client keeps between calls**: everything an estimate run reads from the client (model object, results handler,
+    election id, office, unit type, save flag) is set anew by that run before it is read, and a model object — with its generator,
+    created from the seed setting in the model's `__init__` — is constructed inside the run; the two dictionaries that persist hold
+    calibration data for saving only. This is the shape `step` models: an estimate run overwrites the client state it uses. -/
+theorem bridge_client_state :
+    Gen.C12.client_persistent_state = ["self.all_conformalization_data_agg_dict", "self.all_conformalization_data_unit_dict", "self.election_id", "self.geographic_unit_type", "self.model", "self.office", "self.results_handler", "self.save_results"] ∧
+    Gen.C12.client_set_per_call = ["self.save_results = 'results' in save_output", "self.election_id = election_id", "self.office = office", "self.geographic_unit_type = geographic_unit_type", "self.results_handler = ModelResultsHandler(…)", "self.model = NonparametricElectionModel(…)", "self.model = GaussianElectionModel(…)", "self.model = BootstrapElectionModel(…)"] ∧
+    Gen.C12.generator_created = ["BootstrapElectionModel.__init__: self.rng = np.random.default_rng(seed=self.seed)"] :=
+  ⟨rfl, rfl, rfl⟩
+
 /-! ### non-vacuity -/
 example : sortBy Gen.C12.aggregate_order ["county_fips", "postal_code"] = ["postal_code", "county_fips"] ∧
     sortBy Gen.C12.aggregate_order ["postal_code", "county_fips"] = ["postal_code", "county_fips"] := by decide
